@@ -22,7 +22,15 @@
 //!  * afterwards `2 x workers + 2` fresh coroutines are spawned and joined: every worker thread still runs
 //!    coroutines (a dead worker would leave its share of them un-run -> watchdog);
 //!  * `F10:` code that is not unwinding never observes `std::thread::panicking()`, and a lock whose holders
-//!    never panicked is never poisoned (known finding F10, see pending_fixes/README-C14.md).
+//!    never panicked is never poisoned (finding F10, see pending_fixes/README-C14.md: a coroutine that parks while it
+//!    unwinds leaves the per-thread panic counter raised; repaired for the scope exits by F10.patch).
+//!
+//! Family `panicrw` (`build_rw`, oracles only, NOT part of `./check C13`): what F10.patch does not repair - a destructor
+//! that blocks while it unwinds (`RwLockReadGuard::drop` -> `read_unlock` -> `rlock.lock()` under reader contention).
+//! Its failures carry the prefix `F10rw:`.
+//!
+//! Family `paniccq` (`build_cq`, oracles only): the same probe around `cqueue::scope` - the owner panics in `f`, or an
+//! arm panics and `poll` re-throws it, while another arm still runs, so `Cqueue::drop` has to wait.
 //!
 //! Trace = API events + hooked operations of join.rs, coroutine_impl.rs (result / panic slots), scoped.rs and
 //! sync/poison.rs (`failed.load` in `Flag::borrow` / `get`, `failed.store(1)` in `Flag::done`).
@@ -85,9 +93,10 @@ fn f10_probe(fails: &StdMutex<Vec<String>>, who: usize, at: &str) {
     }
 }
 
-/// `with_scope`: family `panicscope` (every scenario has a `scoped` role, i.e. a coroutine that parks while it unwinds:
-/// known finding F10 taints the whole process, so everything this family reports is classified `F10:`);
-/// family `panic` has none and is strict.
+/// `with_scope`: family `panicscope` - every scenario has a `scoped` role: an owner that re-raises a child's panic and
+/// then has to wait for a slow child. Before F10.patch that wait ran inside the unwind (a coroutine parked while
+/// unwinding: finding F10, every manifestation is reported with the prefix `F10:`); since the patch `scope` catches the
+/// panic first. Both families are strict and replayed; family `panic` has no `scoped` role.
 pub fn build(rng: &mut Rng, tier: u32, with_scope: bool) -> LiveBuilt {
     // actor ids: 0 = main, 1 unused, 2.. coroutines (fresh id per spawn, over all rounds)
     let rounds = 2 + rng.below(if tier > 0 { 8 } else { 4 }) as usize;
@@ -418,13 +427,188 @@ pub fn build(rng: &mut Rng, tier: u32, with_scope: bool) -> LiveBuilt {
             let mut out = std::mem::take(&mut *fails.lock().unwrap_or_else(|e| e.into_inner()));
             out.extend(sctx.take_fails());
             let _ = reused.load(Ordering::SeqCst);
-            if with_scope {
-                // consequences of F10 (wrong poison decisions, swallowed re-raise) are that finding, not new ones
-                for f in out.iter_mut() {
-                    if !f.starts_with("F10:") && !f.starts_with("F5:") {
-                        *f = format!("F10: (consequence, the process ran coroutines that parked while unwinding) {f}");
+            // strict in both families; only in a process in which an `F10:` observation was actually made are the
+            // other failures reported as its possible consequences
+            super::classify_f10(&mut out);
+            out
+        }),
+    }
+}
+
+struct SetOnDrop(Arc<AtomicBool>);
+impl Drop for SetOnDrop {
+    fn drop(&mut self) {
+        self.0.store(true, Ordering::SeqCst);
+    }
+}
+
+/// family `paniccq` (oracles only; the cqueue events belong to C16's model): the owner of a `cqueue::scope` leaves it by
+/// a panic while one of its select coroutines still runs, so `Cqueue::drop` must wait for it. Before F10.patch that wait
+/// ran inside the unwind of the owner. Unrelated workers (with a `may::sync::Mutex` guard held across the window)
+/// run alongside and probe `thread::panicking()`.
+pub fn build_cq(rng: &mut Rng, tier: u32) -> LiveBuilt {
+    let rounds = 1 + rng.below(if tier > 0 { 4 } else { 2 }) as usize;
+    // per round: (who panics: 0 owner in f, 1 an arm (re-thrown by poll), slow arm sleep µs, workers)
+    let plan: Vec<(u64, u64, usize)> = (0..rounds).map(|_| (rng.below(2), 300 + rng.below(900), 1 + rng.below(3) as usize)).collect();
+    let header = format!("family=paniccq actors=2 rounds={rounds}");
+    LiveBuilt {
+        header,
+        filter: vec!["src/join.rs", "src/coroutine_impl.rs", "src/sync/poison.rs"],
+        hang_ms: 4000,
+        run: Box::new(move || {
+            std::panic::set_hook(Box::new(|info| {
+                let cancel = info.location().map(|l| l.file().ends_with("cancel.rs")).unwrap_or(false);
+                if info.payload().downcast_ref::<Payload>().is_none() && !cancel {
+                    eprintln!("unexpected panic: {info}");
+                }
+            }));
+            may::config().set_stack_size(0x8000);
+            let fails: Arc<StdMutex<Vec<String>>> = Arc::new(StdMutex::new(vec![]));
+            let fail = |s: String| {
+                let mut f = fails.lock().unwrap_or_else(|e| e.into_inner());
+                if f.len() < 12 {
+                    f.push(s);
+                }
+            };
+            for (r, (who, slow_us, nworkers)) in plan.iter().cloned().enumerate() {
+                let p = 8000 + r as u64;
+                let arm_done = Arc::new(AtomicBool::new(false));
+                let arm_done2 = arm_done.clone();
+                let owner = unsafe {
+                    coroutine::Builder::new().name(format!("cq{r}")).spawn(move || {
+                        may::cqueue::scope(|cq| {
+                            // a slow arm: still inside its top half when the scope is left
+                            // (`Cqueue::drop` cancels it and then has to wait until it is gone)
+                            may::go!(cq, 0, move |es| {
+                                let _gone = SetOnDrop(arm_done2);
+                                coroutine::sleep(Duration::from_micros(slow_us));
+                                coroutine::yield_now();
+                                es.send(0);
+                            });
+                            if who == 1 {
+                                // an arm that panics: `poll` re-throws its payload in the owner
+                                may::go!(cq, 1, move |_es| {
+                                    coroutine::yield_now();
+                                    std::panic::panic_any(Payload(p));
+                                });
+                                loop {
+                                    if cq.poll(None).is_err() {
+                                        break;
+                                    }
+                                }
+                            } else {
+                                coroutine::yield_now();
+                                std::panic::panic_any(Payload(p));
+                            }
+                        });
+                    })
+                    .unwrap()
+                };
+                let locks: Arc<Vec<Mutex<u64>>> = Arc::new((0..nworkers).map(|_| Mutex::new(0)).collect());
+                let ws: Vec<_> = (0..nworkers)
+                    .map(|i| {
+                        let (fails2, locks2) = (fails.clone(), locks.clone());
+                        let id = 100 * (r + 1) + i;
+                        unsafe {
+                            coroutine::Builder::new().name(format!("w{id}")).spawn(move || {
+                                f10_probe(&fails2, id, "begin");
+                                let mut g = locks2[i].lock().unwrap_or_else(|e| e.into_inner());
+                                *g += 1;
+                                for k in 0..6 {
+                                    if k % 2 == 0 {
+                                        coroutine::yield_now();
+                                    } else {
+                                        coroutine::sleep(Duration::from_micros(150));
+                                    }
+                                    f10_probe(&fails2, id, "holding its lock");
+                                }
+                                drop(g);
+                                f10_probe(&fails2, id, "end");
+                                id
+                            })
+                            .unwrap()
+                        }
+                    })
+                    .collect();
+                let res = owner.join().map_err(|e| e.downcast_ref::<Payload>().map(|p| p.0));
+                if res != Err(Some(p)) {
+                    fail(format!("panic: owner of the cqueue scope gave {res:?}, expected Err(Some({p}))"));
+                }
+                if !arm_done.load(Ordering::SeqCst) {
+                    fail("scope: cqueue::scope was left while one of its select coroutines was still running".to_string());
+                }
+                for (i, w) in ws.into_iter().enumerate() {
+                    let id = 100 * (r + 1) + i;
+                    match w.join() {
+                        Ok(v) if v == id => {}
+                        other => fail(format!("isolation: unrelated coroutine w{id} gave {:?}", other.ok())),
+                    }
+                    if locks[i].is_poisoned() {
+                        fail(format!("F10: the lock of w{id} is poisoned (its holder never panicked)"));
                     }
                 }
+            }
+            super::quiesce(4);
+            let mut out = std::mem::take(&mut *fails.lock().unwrap_or_else(|e| e.into_inner()));
+            super::classify_f10(&mut out);
+            out
+        }),
+    }
+}
+
+/// family `panicrw` (oracles only, not in tools/props.py): the residue of finding F10 after F10.patch. Readers hammer one
+/// `RwLock`; some of them panic while they hold a read guard (the panic is caught inside the same coroutine). The guard is
+/// dropped by the unwind, `read_unlock` takes the reader-count mutex `rlock`, and under contention that `lock()` parks:
+/// a coroutine is suspended while it unwinds. Everything is reported with the prefix `F10rw:`.
+pub fn build_rw(rng: &mut Rng, tier: u32) -> LiveBuilt {
+    let readers = 6 + rng.below(if tier > 0 { 13 } else { 7 }) as usize;
+    let iters = 40 + rng.below(60) as usize;
+    let header = format!("family=panicrw actors=2 readers={readers} iters={iters}");
+    LiveBuilt {
+        header,
+        filter: vec!["src/sync/rwlock.rs"],
+        hang_ms: 6000,
+        run: Box::new(move || {
+            std::panic::set_hook(Box::new(|_| {}));
+            may::config().set_stack_size(0x8000);
+            let lock = Arc::new(RwLock::new(0u64));
+            let seen = Arc::new(AtomicUsize::new(0));
+            let hs: Vec<_> = (0..readers)
+                .map(|i| {
+                    let (lock, seen) = (lock.clone(), seen.clone());
+                    unsafe {
+                        coroutine::Builder::new().name(format!("r{i}")).spawn(move || {
+                            for k in 0..iters {
+                                if std::thread::panicking() {
+                                    seen.fetch_add(1, Ordering::Relaxed);
+                                }
+                                let g = lock.read().unwrap_or_else(|e| e.into_inner());
+                                if i % 3 == 0 && k % 10 == 9 {
+                                    let r = std::panic::catch_unwind(std::panic::AssertUnwindSafe(|| {
+                                        let _g2 = lock.read().unwrap_or_else(|e| e.into_inner());
+                                        std::panic::panic_any(Payload(k as u64));
+                                    }));
+                                    assert!(r.is_err());
+                                }
+                                drop(g);
+                                if k % 5 == 0 {
+                                    coroutine::yield_now();
+                                }
+                            }
+                        })
+                        .unwrap()
+                    }
+                })
+                .collect();
+            let mut out = vec![];
+            for h in hs {
+                if h.join().is_err() {
+                    out.push("F10rw: a reader ended with a panic of its own".to_string());
+                }
+            }
+            let n = seen.load(Ordering::Relaxed);
+            if n > 0 {
+                out.push(format!("F10rw: readers that were not unwinding observed thread::panicking() == true {n} times (a read guard dropped by an unwind blocked in read_unlock)"));
             }
             out
         }),
